@@ -337,6 +337,42 @@ theorem searchGraph_nearest_partial (zero eps top : P) (hze : zero < eps) (dist 
   searchGraph_nearest_fwd1 zero eps top hze dist hsym argsort hbound hnd hsorted
     (fun _ _ => true) (fun _ _ => true) m hm N u v d (fun _ => rfl) hu hv hne pre post hrow hpre hpost
 
+/-! ## The final renaming by `_vertex_order`
+
+`self._search_graph = self._search_graph[vo, :].tocsc()[:, vo]`: entry `(i, j)` of the stored graph is entry
+`(vo[i], vo[j])` of the graph in caller numbering.  `vo` is a permutation of `0 … n-1` (the leaf order of the first search
+tree, or the identity). -/
+
+/-- `(i, j)` is an edge of the stored (internally numbered) graph -/
+def RelEdge (vo : Nat → Nat) (E : List (Nat × Int)) (i j : Nat) : Prop := (vo i, (vo j : Int)) ∈ E
+
+/-- **The clauses survive the renaming.**  For every draw stream and every permutation `vo` of `0 … n-1`: a stored edge never is a self-loop, it
+joins two points of which (in caller numbering) one lists the other, and point `i` has exactly as many stored out-edges as
+`vo i` has in caller numbering — so the degree bound and "keeps an edge to its nearest one" carry over verbatim. -/
+theorem searchGraphD_renamed (zero eps top : P) (dist : Int → Int → P) (argsort : List P → List Nat)
+    (m : Nat) (N : List (List (Ent P))) (draw1 draw2 : Nat → Nat → Bool) (vo : Nat → Nat) (n : Nat)
+    (hperm : ((List.range n).map vo).Perm (List.range n)) :
+    let E := searchGraphD zero eps top dist argsort m N draw1 draw2
+    (∀ i j, i < n → j < n → RelEdge vo E i j → i ≠ j) ∧
+    (∀ i j, RelEdge vo E i j → Lists N (vo i) (vo j : Int) ∨ Lists N (vo j) (vo i : Int)) ∧
+    (∀ i, ((List.range n).filter (fun j => decide ((vo i, (vo j : Int)) ∈ E))).length =
+          ((List.range n).filter (fun (v : Nat) => decide ((vo i, (v : Int)) ∈ E))).length) := by
+  intro E
+  refine ⟨?_, ?_, ?_⟩
+  · intro i j hi hj h hij
+    have := (searchGraphD_no_self_loops zero eps top dist argsort m N draw1 draw2 _ _ h).2.2.2
+    subst hij
+    exact this rfl
+  · intro i j h
+    have := searchGraphD_subgraph zero eps top dist argsort m N draw1 draw2 _ _ h
+    simpa using this
+  · intro i
+    have h1 : ((List.range n).filter (fun j => decide ((vo i, (vo j : Int)) ∈ E))).length =
+        (((List.range n).map vo).filter (fun (v : Nat) => decide ((vo i, (v : Int)) ∈ E))).length := by
+      rw [List.filter_map, List.length_map]; rfl
+    rw [h1]
+    exact (hperm.filter _).length_eq
+
 /-! ## non-vacuity -/
 
 /-- `degree_prune_internal` with `m = 2` on lengths `[5, 1, 3, 3, 7]`: cut = `sorted[1]` = 3,
